@@ -70,3 +70,50 @@ def gen(rng, tier, cover, regions=machist.DYN):
                 for _ in range(600):
                     lines.append(history(r, region, idx, "".join(r.choice(ALPHABET) for _ in range(r.range(4, 7))), cover))
     return lines
+
+
+# RP002: number of default channels per dynamic-plan region ("SHALL be implemented in every end-device ... cannot be modified through
+# the NewChannelReq command"): EU868 / EU433 / IN865 three, AS923 two
+NDEFAULT = {0: 2, 1: 2, 2: 2, 3: 2, 5: 3, 6: 3, 7: 3}
+
+
+def default_channel_histories(rng, tier, cover, regions=machist.DYN):
+    """NewChannelReq aimed at the DEFAULT channels (remove with frequency 0, re-tune, change the data-rate range), alone, for all of
+    them, and combined with an extra channel that is then masked off; afterwards data uplinks and an OTAA re-join whose draws visit
+    every join channel.  The requests must be refused and the device must go on transmitting on the default channels."""
+    lines = []
+    for region in regions:
+        r = rng.fork("dc%d" % region)
+        nd = NDEFAULT[region]
+        f = freqs(region)
+        variants = ["all0", "one0", "retune", "masked"] if tier == "quick" else ["all0", "one0", "retune", "masked"] * 4
+        for v in variants:
+            net = machist.Net(r, region)
+            net.abp()
+            net.snap()
+            cmds = []
+            if v == "all0":
+                cmds = [machist.new_channel(i, 0, 5, 0) for i in range(nd)]
+            elif v == "one0":
+                cmds = [machist.new_channel(r.below(nd), 0, r.choice([5, 0]), 0)]
+            elif v == "retune":
+                cmds = [machist.new_channel(r.below(nd), f[r.choice(["f1", "f2"])], r.choice([5, 3]), r.choice([0, 2]))]
+            else:
+                cmds = [machist.new_channel(3, f["f1"], 5, 0), machist.link_adr(15, 15, (1 << nd) - 1, 0)] + [machist.new_channel(i, 0, 5, 0) for i in range(nd)]
+            for c in cmds:
+                net.send(b"u", 1, False, ndraws=40)
+                net.downlink(c, None, b"")
+                net.snap()
+                net.op("send 75 1 0 %s" % cover(r))
+                net.snap()
+                net.rx2c()
+            for _ in range(3):
+                net.op("send 7a 1 0 %s" % cover(r))
+                net.snap()
+                net.rx2c()
+            # a re-join: the draws 0, 1, 2, 3 visit every join channel index
+            net.op("otaa %d %d %s %d,0,1,2,3,0,1,2,3,%s" % (r.below(1 << 64), r.below(1 << 64), net.appkey.hex(), r.below(1 << 32), machist.draws(r, 8)))
+            net.rx2c()
+            net.op("otaa %d %d %s %d,1,2,0,3,1,2,%s" % (r.below(1 << 64), r.below(1 << 64), net.appkey.hex(), r.below(1 << 32), machist.draws(r, 8)))
+            lines.append(net.line())
+    return lines
